@@ -22,7 +22,7 @@ import frontc
 import vlib
 
 GOOD = [
-    '<svg><rect wh="10 5" text="hello"/></svg>',
+    '<svg><rect wh="10 5" text="hello" class="d-text-large"/><text xy="0 9" class="d-text-smaller d-text-bold">t</text></svg>',
     '<svg><rect id="a" wh="4"/><rect xy="#a|h 2" wh="3" class="d-fill-red"/><line start="#a" end="^" class="d-arrow"/></svg>',
     '<svg><loop count="3" loop-var="i"><circle cxy="{{$i * 4}} 0" r="{{1 + random()}}"/></loop></svg>',
     '<svg><var k="3"/><g k="5"><text xy="0 0" text="k=$k"/></g><text xy="0 5" text="k=$k"/></svg>',
@@ -44,6 +44,11 @@ LEXICAL = [
     '<svg><rect wh="2" _="comment\r\nwith lines"/><rect xy="^|h" wh="2" style="fill: red;\r\n stroke: blue"/></svg>',
     '<rect wh="3"/>\r\n<rect xy="^|v 1" wh="3"/>\r\n',
 ]
+# not documents at all: character data only (every front-end must treat the bytes alike)
+TEXT_ONLY = ["a > b & c", "hello  \nworld", "   ", "plain"]
+# fail late, after part of the output has been produced
+LATE_BAD = ['<!-- c --><svg width="wide"><rect wh="2"/></svg>',
+            '<svg><rect wh="2"/><rect wh="3" xy="9 9"/><rect xy="#nowhere|h" wh="1"/></svg>']
 EMPTY_OK = ['<specs><rect id="q" wh="1"/></specs>']
 
 
@@ -72,7 +77,7 @@ def run(rep, tier, seed):
             raise vlib.ToolError(f"negative control {dev}: TLC reported {rn.violated}")
 
     svgdx, server_bin = vlib.build_bins()
-    docs = list(GOOD) + list(LEXICAL) + list(BAD) + list(EMPTY_OK)
+    docs = list(GOOD) + list(LEXICAL) + list(TEXT_ONLY) + list(BAD) + list(LATE_BAD) + list(EMPTY_OK)
     for f in sorted(glob.glob(os.path.join(vlib.REPO, "examples", "*.xml")))[: (20 if big else 6)]:
         docs.append(open(f, encoding="utf-8").read())
     cfgs = [{}, {"add_metadata": True}, {"seed": 7, "theme": "dark"}, {"debug": True, "border": 9},
@@ -103,6 +108,23 @@ def run(rep, tier, seed):
         st = "ok" if sr["status"] == "ok" else "fail"
         ops.append(({"e": "op", "fe": "lib-str", "key": frontc.key_of(d, c), "status": st, "hash": frontc.h(sr.get("out")) if st == "ok" else "-",
                      "before": "-", "after": "-", "samefile": False}, {"xml": d, "cfg": c, "api": "transform_str"}))
+    # ... and as a SEQUENCE in one process (shuffled: failing documents between succeeding ones)
+    seq = [{"k": f"q{j}", "xml": d, "cfg": c, "str_api": True} for j, (d, c) in enumerate(keys)]
+    for rnd_round in range(2):
+        order = list(seq)
+        random.Random(seed * 31 + rnd_round).shuffle(order)
+        sres = vlib._run_chunk(vlib.build_runner(), order, 60000, 4096)
+        for j, (d, c) in enumerate(keys):
+            r0 = sres.get(f"q{j}") or {}
+            for fe, r in (("lib-stream", r0), ("lib-str", r0.get("str_api"))):
+                if not r or r.get("status") in (None, "toolerr"):
+                    continue
+                if r["status"] in ("panic", "abort", "hang"):
+                    rep.violation(f"frontend:{fe}:crash", {"xml": vlib.trunc(d, 1000), "cfg": c, "status": r["status"]})
+                    continue
+                st = "ok" if r["status"] == "ok" else "fail"
+                ops.append(({"e": "op", "fe": fe, "key": frontc.key_of(d, c), "status": st, "hash": frontc.h(r.get("out")) if st == "ok" else "-",
+                             "before": "-", "after": "-", "samefile": False}, {"xml": d, "cfg": c, "api": fe, "order": "sequence in one process"}))
     # (a) the library: many different transforms at once in one process
     conc = [{"xml": d, "cfg": c} for (d, c) in keys]
     rnd.shuffle(conc)
